@@ -25,6 +25,7 @@ func registerC14() {
 			"quarters and eighths) sit at and around multiples of 32767 - the order of x modulo the CRC polynomial, where implementations that split a write and combine partial sums wrap - plus PRNG long lengths, from PRNG starting states",
 		Assume:        []string{"the bit-serial reference CRC-16/ARC (12 lines, checked against the catalogue check value 0xBB3D) is the specification"},
 		MinNontrivial: 1 << 24,
+		Families386:   []string{"streaming", "lengths"},
 		Families: []lib.Family{
 			{Name: "transitions", N: func(string) uint64 { return 256 }, Run: c14Transitions},
 			{Name: "streaming", N: func(t string) uint64 { return tierN(t, 20000, 2000000) }, Run: c14Streaming},
